@@ -26,7 +26,7 @@ TrCalc ==
            /\ Clause("VerbatimOnMatch", (e.exc = "" /\ Matched(s)) => e.verbatim = 1)
            /\ src' = s /\ stage' = st
            /\ last' = [act |-> "Calculate", ret |-> IF st = "calculated" THEN "verbatim" ELSE "raises"]
-    /\ UNCHANGED <<dom, rank, mutated>>
+    /\ UNCHANGED <<dom, rank, mutated, regridded>>
 
 TraceInit == Init /\ l = 1 /\ src = [origin |-> "array", lenRel |-> "equal", kRel |-> "none"] /\ dom = "dr" /\ rank = 1
 TraceNext == TrCalc
